@@ -134,6 +134,16 @@ def faulting_condition(check, j):
     n = In("n") if src == "input" else Ref("a", "outputs", "success", "n")
     cond = Bin(rng.choice([">=", ">", "=="]), Bin("/", Lit(100), Bin("-", n, n)), Lit(1))
     guarded = gen.plugin_step("guarded", gen.tagref("a"), enabled=Expr(cond))
+    variant = rng.choice(["enabled", "enabled", "wait_for-optional", "input-optional"])
+    if variant != "enabled":
+        # the same, for a wait-optional member (its source was produced, so it is due - and cannot be evaluated)
+        from ..model import Call, Opt
+        bad = Opt(Call("stringToInt", Ref("a", "outputs", "success", "tag")), True) if src == "step" else Opt(Bin("/", Lit(100), Bin("-", In("n"), In("n"))), True)
+        if variant == "wait_for-optional":
+            guarded = gen.plugin_step("guarded", gen.tagref("a"), wait_for={"x": bad})
+        else:
+            guarded = gen.plugin_step("guarded", gen.tagref("a"), extra_input={"a": {"x": bad}})
+        src = src + "/" + variant
     steps = [a, guarded]
     if rng.random() < 0.5:
         steps.append(gen.plugin_step("after", gen.tagref("guarded")))
